@@ -71,9 +71,10 @@ def run(tier, seed):
         res = lc.analyse(ctx, avh, tier, seed, "c16") if base is not None else None
         if res is not None:
             insts, verd, diags = res
-            reg, notes = lc.compare(insts, verd, diags, base, {"two_phase"})
+            reg, notes = lc.compare(insts, verd, diags, base, {"two_phase", "vbm"})
             n2 = sum(1 for v in verd if v[3] == 1 and v[4] == 1 and v[5] == 1)
-            ctx.oblige("C16:no trace lost two_phase / balanced against the baseline (%d traces, %d two-phase + well-locked in Coq)" % (len(insts), n2),
+            ctx.oblige("C16:no trace lost two_phase / validate-before-mutate / balanced against the baseline (%d traces, %d two-phase + well-locked, "
+                       "%d validate-before-mutate in Coq)" % (len(insts), n2, sum(1 for v in verd if v[6] == 1)),
                        not reg, "; ".join("%s: %s" % (r["instance"], r["detail"]) for r in reg[:6]))
             wl_bad = [i.key for i, v in zip(insts, verd) if v[4] != 1]
             ctx.oblige("C16:every derived data trace is well-locked (C16_guard_traces_well_locked instantiated)", not wl_bad, str(wl_bad[:3]))
@@ -114,6 +115,8 @@ def run(tier, seed):
                 passes.insert(0, ("search-lost-two-phase", extra[:400], 3, 200, 60))
             regressed = set("%s/%s" % (r["instance"].split()[0], r["instance"].split()[1].split("/", 1)[1]) for r in reg)
             total_runs, n_nonser, by_known, unclaimed, contradictions, lost = 0, 0, {}, [], [], []
+            base_fx = set(base.get("c16_locked_with_effect", []))
+            fx_new, fx_seen = [], set()
             claimed_pairs, claimed_runs = 0, 0
             for tag, tuples, k, limit, nrand in passes:
                 recs, errs = lc.explore(avh, list(tuples), k, limit, nrand, seed, "c16" + tag)
@@ -127,6 +130,12 @@ def run(tier, seed):
                     if not rec["nonserial"]:
                         continue
                     n_nonser += rec["nonserial"]
+                    if rec["lockfx"] and len(rec["ops"]) == 2:   # pairs only: with three calls the other two may be the non-serializable ones
+                        # a call gave up with ParentElementLocked although the outcome is not that of the other calls alone
+                        k = "%s %s" % (rec["shape"], "+".join(sorted(rec["ops"])))
+                        fx_seen.add(k)
+                        if k not in base_fx and known_for(rec["ops"], known) is None:
+                            fx_new.append(rec)
                     e = known_for(rec["ops"], known)
                     if any(o in regressed for o in rec["ops"]):
                         lost.append(rec)
@@ -146,9 +155,17 @@ def run(tier, seed):
             ctx.oblige("C16:every tuple whose operations are all two-phase (Coq verdict) was serializable in every explored schedule "
                        "(%d tuples, %d runs)" % (claimed_pairs, claimed_runs), not contradictions,
                        "; ".join("%s %s" % (c["shape"], "+".join(c["ops"])) for c in contradictions[:4]))
+            ctx.coverage["tuples_with_lock_error_and_effect(in baseline)"] = sorted(fx_seen & base_fx)
+            ctx.oblige("C16:a call that returns ParentElementLocked has no effect: no tuple outside the baseline / recorded findings where the outcome of such "
+                       "a run differs from the other calls alone", not fx_new,
+                       "; ".join("%s %s" % (c["shape"], "+".join(c["ops"])) for c in fx_new[:4]))
+            for rec in fx_new[:3]:
+                s, oc = rec["lockfx"][0]
+                prop_viol.append({"what": "a call returned ParentElementLocked but had an effect (results + final canonical state differ from every serial "
+                                          "order of the other calls alone)", "shape": rec["shape"], "ops": rec["ops"], "schedule": s, "outcome": oc})
             for rec in (contradictions + lost)[:4]:
-                s, oc = rec["nonser"][0] if rec["nonser"] else ("", "")
-                prop_viol.append({"what": "non-serializable interleaving" + (" of an operation that lost two_phase" if rec in lost else " of operations claimed serializable"),
+                s, oc = (rec["lockfx"] or rec["nonser"] or [("", "")])[0]
+                prop_viol.append({"what": "non-serializable interleaving" + (" of an operation that lost two_phase / validate-before-mutate" if rec in lost else " of operations claimed serializable"),
                                   "shape": rec["shape"], "ops": rec["ops"], "schedule": s, "outcome": oc})
     if ctx.broken:
         if prop_viol:
